@@ -141,4 +141,56 @@ def c19(q):
     }
 
 
-PLANS = {"C01": c01, "C02": c02, "C03": c03, "C04": c04, "C06": c06, "C19": c19, "C15": c15, "C17": c17, "C20": c20}
+def _hist(q, rule, gates, miri_cases=120):
+    return {
+        "level": "exploration",
+        "rule": rule + (" Histories: a value is emplaced into a guarded buffer (needed size + 0..300 bytes slack) and driven through 3..40 (quick) / 3..200 (thorough) operations chosen from the current "
+                        "reference-parsed state with boundary-biased arguments; after every step the bytes are parsed by the independent reference parser and compared with the accessors. "
+                        "evaluations = operations executed; distinct = distinct (shape, abstract state after the step, operation kind); every step is non-trivial (it runs unsafe in-place code)."),
+        "gates": ["histories"] + gates,
+        "jobs": [
+            {"sub": "random", "cfgs": ["debug", "release"], "cases": 12_000 if q else 300_000, "ms": 35_000 if q else 400_000},
+            {"sub": "random", "cfgs": ["miri"], "cases": miri_cases if q else 5_000, "ms": 45_000 if q else 600_000, "lite": True, "wall": 300 if q else 1500},
+        ] + ([] if q else [
+            {"sub": "random", "cfgs": ["miri-tb"], "cases": 3_000, "ms": 300_000, "lite": True, "wall": 900},
+            {"sub": "random", "cfgs": ["asan"], "cases": 100_000, "ms": 200_000},
+        ]),
+    }
+
+
+def c05(q):
+    return _hist(q, "Oracle: in every reached state size() == extent computed by the reference parser from the value's bytes (end of used data rounded up to ALIGN), size() <= buffer, and the first size() bytes "
+                    "copied into a fresh tail-guarded buffer map again to the same content with the same size().", ["op:flex_push:done", "op:push:done", "op:assign:done", "op:flex_pop:done"])
+
+
+def c11(q):
+    return _hist(q, "Oracle: sequential model of a capacity-bounded Vec / String (capacity computed by the reference layout from the bytes available to the container): result of every operation, len, capacity, "
+                    "remaining, is_empty, is_full, contents, size(), ==/partial_cmp against twins, validity and re-map equality after every step; documented panics (index out of range, resize beyond capacity) "
+                    "are modelled as refusals.", ["state:empty", "state:full", "state:len=L::MAX", "twin-compared", "op:push:refused", "op:push_slice:refused", "op:push_str:refused", "op:remove:ret", "op:resize:done"])
+
+
+def c12(q):
+    return _hist(q, "Oracle: sequence model of a FlexVec (push success decided by a reference implementation of the documented offset chain: slot room, item extent, offset representable in L): len, is_empty, "
+                    "items in order, size(), validity, re-map equality, bytes of the other items unchanged after every step, including edits inside non-last items.",
+                 ["op:flex_push:done", "op:flex_push:refused", "op:flex_pop:done", "op:flex_truncate:done", "pop-or-truncate-on-3+", "edit-inside-item"])
+
+
+def c13(q):
+    return _hist(q, "Workload steered towards refusal (small buffers, fill to full, oversized slices / strings / items, offsets not representable in u8, failing nested emplacers). Oracle: after an Err (or documented panic) "
+                    "the value reads the same, size() is the same, it validates, and every non-padding byte of the previous state is unchanged; the history continues and later operations are judged by the models.",
+                 ["refused:FlatVec:full", "refused:FlatString:full", "refused:FlexVec:no-room-for-item", "refused:FlexVec:no-room-for-slot", "refused:FlexVec:empty"])
+
+
+def c14(q):
+    return _hist(q, "All constructing / mutating operations incl. failing ones and field writes, always in island buffers. Oracle: canary bytes around the slice unchanged (native), no access outside the slice (Miri/ASan), "
+                    "and the non-padding bytes of every sub-object that is not under the path being changed (sibling fields, other FlexVec items) are unchanged.",
+                 ["op:set:done", "op:assign:done", "op:assign:refused", "op:flex_push:done", "op:push:done"])
+
+
+def c18(q):
+    return _hist(q, "Workload: assign_in_place on the root and on nested unsized sub-objects with replacement values from tiny to larger than the target (every variant, every container fill, every emplacer style). Oracle: after Err the "
+                    "value validates, parses, reads, measures and can be assigned again without panic; when the cause is room (decided by the reference extent) content, size() and non-padding bytes are unchanged.",
+                 ["op:assign:done", "op:assign:refused", "failed-assign-left-unchanged"])
+
+
+PLANS = {"C01": c01, "C02": c02, "C03": c03, "C04": c04, "C05": c05, "C06": c06, "C11": c11, "C12": c12, "C13": c13, "C14": c14, "C18": c18, "C19": c19, "C15": c15, "C17": c17, "C20": c20}
